@@ -258,4 +258,390 @@ theorem self_push_recv (cs : List Chan) (c : Nat) (e0 : Entry) (hc : c < cs.leng
     e0 ∈ entsC (cs.set c { cs.getD c Chan.nil with recvQ := pushQ (cs.getD c Chan.nil).isNil (cs.getD c Chan.nil).recvQ e0 }) c false := by
   rw [entsC_set]; simp only [hc, and_self, if_true, Bool.false_eq_true, if_false]; rw [hn]; exact mem_pushQ_self
 
+/-! ### the primitives -/
+
+theorem keep_setC_same (s : State) (c : Nat) (x : Chan) (hs : x.sendQ = (getC s c).sendQ) (hr : x.recvQ = (getC s c).recvQ)
+    (k : Nat) (snd : Bool) (e : Entry) (he : e ∈ ents s k snd) : e ∈ ents (setC s c x) k snd := by
+  show e ∈ entsC (s.chans.set c x) k snd
+  rw [entsC_set]; split
+  · next hh =>
+    have he' : e ∈ entsC s.chans k snd := he
+    unfold entsC at he'
+    cases snd
+    · simp only [Bool.false_eq_true, if_false] at he' ⊢; rw [hr, hh.1]; exact he'
+    · simp only [if_true] at he' ⊢; rw [hs, hh.1]; exact he'
+  · exact he
+
+theorem cmp_setC_same {s : State} (h : Cmp s) (c : Nat) (x : Chan) (hn : x.isNil = (getC s c).isNil)
+    (hs : x.sendQ = (getC s c).sendQ) (hr : x.recvQ = (getC s c).recvQ) : Cmp (setC s c x) :=
+  cmp_same_gs h rfl (chFrame_setC s c x hn) (keep_setC_same s c x hs hr)
+
+theorem doSend_cmp (s : State) (g c v : Nat) (h : GInv s) (hc : Cmp s) (hcur : s.cur = some g) (hv : c < s.chans.length) :
+    Cmp (doSend s g c v).1 := by
+  unfold doSend; simp only
+  split
+  · exact hc
+  · split
+    · next e rq heq =>
+      obtain ⟨w, hs⟩ := fireRecv_head h c e rq { getC s c with recvQ := rq, hCommit := (getC s c).hCommit ++ [v], hRecv := (getC s c).hRecv ++ [v] } heq rfl rfl v true
+      obtain ⟨f1, f2⟩ := fireRecv_frame s c { getC s c with recvQ := rq, hCommit := (getC s c).hCommit ++ [v], hRecv := (getC s c).hRecv ++ [v] } rfl e v true
+      exact cmp_head hc hs f1 f2
+    · split
+      · exact cmp_setC_same hc c _ rfl rfl rfl
+      · apply cmp_block h hc g hcur (.send c v)
+          (s.chans.set c { getC s c with sendQ := pushQ (getC s c).isNil (getC s c).sendQ ⟨g, none, v⟩ })
+          (csFrame_set s.chans c { getC s c with sendQ := pushQ (getC s c).isNil (getC s c).sendQ ⟨g, none, v⟩ } rfl)
+          (keep_push_send s.chans c ⟨g, none, v⟩)
+        refine ⟨by simpa using hv, fun hn => ⟨⟨g, none, v⟩, ?_, rfl⟩⟩
+        have hn' : (s.chans.getD c Chan.nil).isNil = false := by
+          simpa [getC_def, getD_set, hv] using hn
+        exact self_push_send s.chans c _ hv hn'
+
+theorem recvTail_cmp (s : State) (g c : Nat) (h : GInv s) (hc : Cmp s) (hcur : s.cur = some g) (hv : c < s.chans.length) :
+    Cmp (recvTail s g c).1 := by
+  unfold recvTail; simp only
+  split
+  · exact cmp_setC_same hc c _ rfl rfl rfl
+  · split
+    · split <;> exact hc
+    · apply cmp_block h hc g hcur (.recv c)
+        (s.chans.set c { getC s c with recvQ := pushQ (getC s c).isNil (getC s c).recvQ ⟨g, none, 0⟩ })
+        (csFrame_set s.chans c { getC s c with recvQ := pushQ (getC s c).isNil (getC s c).recvQ ⟨g, none, 0⟩ } rfl)
+        (keep_push_recv s.chans c ⟨g, none, 0⟩)
+      refine ⟨by simpa using hv, fun hn => ⟨⟨g, none, 0⟩, ?_, rfl⟩⟩
+      have hn' : (s.chans.getD c Chan.nil).isNil = false := by
+        simpa [getC_def, getD_set, hv] using hn
+      exact self_push_recv s.chans c _ hv hn'
+
+theorem doRecv_cmp (s : State) (g c : Nat) (h : GInv s) (hc : Cmp s) (hcur : s.cur = some g) (hv : c < s.chans.length) :
+    Cmp (doRecv s g c).1 := by
+  unfold doRecv; simp only
+  split
+  · next e sq heq =>
+    obtain ⟨w, hs⟩ := fireSend_head h c e sq heq false
+    obtain ⟨f1, f2⟩ := fireSend_frame s c { getC s c with sendQ := sq } rfl e false
+    have hc1 := cmp_head hc hs f1 f2
+    have hg1 : GInv (fireSend (setC s c { getC s c with sendQ := sq }) e false) := by
+      apply fireSend_ginv h c e sq heq <;> rfl
+    have hcur1 : (fireSend (setC s c { getC s c with sendQ := sq }) e false).cur = some g := by rw [fireSend_cur]; exact hcur
+    have hv1 : c < (fireSend (setC s c { getC s c with sendQ := sq }) e false).chans.length := (f1 c hv).1
+    generalize fireSend (setC s c { getC s c with sendQ := sq }) e false = s1 at hc1 hg1 hcur1 hv1 ⊢
+    apply recvTail_cmp
+    · exact hg1.setC_same c _ rfl rfl
+    · exact cmp_setC_same hc1 c _ rfl rfl rfl
+    · exact hcur1
+    · simpa using hv1
+  · exact recvTail_cmp s g c h hc hcur hv
+
+theorem closeSenders_cmp : ∀ (n : Nat) (s : State) (c : Nat), GInv s → Cmp s → Cmp (closeSenders n s c) := by
+  intro n; induction n with
+  | zero => intro s c _ hc; exact hc
+  | succ n ih =>
+    intro s c h hc; unfold closeSenders; simp only
+    split
+    · exact hc
+    · next e sq heq =>
+      obtain ⟨w, hs⟩ := fireSend_head h c e sq heq true
+      obtain ⟨f1, f2⟩ := fireSend_frame s c { getC s c with sendQ := sq } rfl e true
+      apply ih
+      · apply fireSend_ginv h c e sq heq <;> rfl
+      · exact cmp_head hc hs f1 f2
+
+theorem closeRecvs_cmp : ∀ (n : Nat) (s : State) (c : Nat), GInv s → Cmp s → Cmp (closeRecvs n s c) := by
+  intro n; induction n with
+  | zero => intro s c _ hc; exact hc
+  | succ n ih =>
+    intro s c h hc; unfold closeRecvs; simp only
+    split
+    · exact hc
+    · next e rq heq =>
+      obtain ⟨w, hs⟩ := fireRecv_head h c e rq { getC s c with recvQ := rq } heq rfl rfl 0 false
+      obtain ⟨f1, f2⟩ := fireRecv_frame s c { getC s c with recvQ := rq } rfl e 0 false
+      apply ih
+      · apply fireRecv_ginv h c e rq heq <;> rfl
+      · exact cmp_head hc hs f1 f2
+
+theorem doClose_cmp (s : State) (c : Nat) (h : GInv s) (hc : Cmp s) : Cmp (doClose s c).1 := by
+  unfold doClose; simp only
+  split
+  · exact hc
+  · split
+    · exact hc
+    · have h1 : GInv (setC s c { getC s c with closed := true }) := h.setC_same c _ rfl rfl
+      have hc1 : Cmp (setC s c { getC s c with closed := true }) := cmp_setC_same hc c _ rfl rfl rfl
+      exact closeRecvs_cmp _ _ _ (closeSenders_ginv _ _ _ h1) (closeSenders_cmp _ _ _ h1 hc1)
+
+/-! ### `$select` registration -/
+
+theorem registerCases_frame (g : Nat) : ∀ (rest : List Case) (i : Nat) (cs : List Chan), CsFrame cs (registerCases g rest i cs) := by
+  intro rest; induction rest with
+  | nil => intro i cs; exact csFrame_refl cs
+  | cons k rest ih =>
+    intro i cs
+    cases k with
+    | dflt => exact ih _ _
+    | recv c =>
+      exact csFrame_trans (csFrame_set cs c { cs.getD c Chan.nil with recvQ := pushQ (cs.getD c Chan.nil).isNil (cs.getD c Chan.nil).recvQ ⟨g, some i, 0⟩ } rfl) (ih _ _)
+    | send c v =>
+      exact csFrame_trans (csFrame_set cs c { cs.getD c Chan.nil with sendQ := pushQ (cs.getD c Chan.nil).isNil (cs.getD c Chan.nil).sendQ ⟨g, some i, v⟩ } rfl) (ih _ _)
+
+theorem registerCases_keep (g : Nat) : ∀ (rest : List Case) (i : Nat) (cs : List Chan) (k : Nat) (snd : Bool) (e : Entry),
+    e ∈ entsC cs k snd → e ∈ entsC (registerCases g rest i cs) k snd := by
+  intro rest; induction rest with
+  | nil => intro i cs k snd e he; exact he
+  | cons c rest ih =>
+    intro i cs k snd e he
+    cases c with
+    | dflt => exact ih _ _ _ _ _ he
+    | recv c0 => exact ih _ _ _ _ _ (keep_push_recv cs c0 _ k snd e he)
+    | send c0 v => exact ih _ _ _ _ _ (keep_push_send cs c0 _ k snd e he)
+
+theorem registerCases_present (g : Nat) : ∀ (rest : List Case) (i : Nat) (cs : List Chan) (j : Nat),
+    (∀ c v, rest.getD j .dflt = .send c v → c < cs.length → (cs.getD c Chan.nil).isNil = false →
+        ∃ e ∈ entsC (registerCases g rest i cs) c true, e.gid = g ∧ e.sel = some (i + j)) ∧
+    (∀ c, rest.getD j .dflt = .recv c → c < cs.length → (cs.getD c Chan.nil).isNil = false →
+        ∃ e ∈ entsC (registerCases g rest i cs) c false, e.gid = g ∧ e.sel = some (i + j)) := by
+  intro rest; induction rest with
+  | nil => intro i cs j; constructor <;> (intros; simp at *)
+  | cons k rest ih =>
+    intro i cs j
+    cases j with
+    | zero =>
+      cases k with
+      | dflt => constructor <;> (intros; simp at *)
+      | recv c0 =>
+        constructor
+        · intro c v h; simp at h
+        · intro c h hc hn
+          have : c0 = c := by simpa using h
+          subst this
+          exact ⟨⟨g, some i, 0⟩, registerCases_keep g rest (i + 1) _ c0 false _ (self_push_recv cs c0 _ hc hn), rfl, rfl⟩
+      | send c0 v0 =>
+        constructor
+        · intro c v h hc hn
+          have h' : c0 = c ∧ v0 = v := by simpa using h
+          obtain ⟨h1, h2⟩ := h'; subst h1; subst h2
+          exact ⟨⟨g, some i, v0⟩, registerCases_keep g rest (i + 1) _ c0 true _ (self_push_send cs c0 _ hc hn), rfl, rfl⟩
+        · intro c h; simp at h
+    | succ j =>
+      have hidx : i + (j + 1) = i + 1 + j := by omega
+      rw [hidx]
+      cases k with
+      | dflt => exact ih (i + 1) cs j
+      | recv c0 =>
+        have fr := csFrame_set cs c0 { cs.getD c0 Chan.nil with recvQ := pushQ (cs.getD c0 Chan.nil).isNil (cs.getD c0 Chan.nil).recvQ ⟨g, some i, 0⟩ } rfl
+        have := ih (i + 1) (cs.set c0 { cs.getD c0 Chan.nil with recvQ := pushQ (cs.getD c0 Chan.nil).isNil (cs.getD c0 Chan.nil).recvQ ⟨g, some i, 0⟩ }) j
+        constructor
+        · intro c v h hc hn; exact this.1 c v (by simpa using h) (by rw [fr.1]; exact hc) (by rw [fr.2]; exact hn)
+        · intro c h hc hn; exact this.2 c (by simpa using h) (by rw [fr.1]; exact hc) (by rw [fr.2]; exact hn)
+      | send c0 v0 =>
+        have fr := csFrame_set cs c0 { cs.getD c0 Chan.nil with sendQ := pushQ (cs.getD c0 Chan.nil).isNil (cs.getD c0 Chan.nil).sendQ ⟨g, some i, v0⟩ } rfl
+        have := ih (i + 1) (cs.set c0 { cs.getD c0 Chan.nil with sendQ := pushQ (cs.getD c0 Chan.nil).isNil (cs.getD c0 Chan.nil).sendQ ⟨g, some i, v0⟩ }) j
+        constructor
+        · intro c v h hc hn; exact this.1 c v (by simpa using h) (by rw [fr.1]; exact hc) (by rw [fr.2]; exact hn)
+        · intro c h hc hn; exact this.2 c (by simpa using h) (by rw [fr.1]; exact hc) (by rw [fr.2]; exact hn)
+
+theorem caseChansValid_get (s : State) : ∀ (cases : List Case), caseChansValid s cases = true → ∀ i,
+    (∀ c v, cases.getD i .dflt = .send c v → c < s.chans.length) ∧ (∀ c, cases.getD i .dflt = .recv c → c < s.chans.length) := by
+  intro cases; induction cases with
+  | nil => intro _ i; constructor <;> (intros; simp at *)
+  | cons k rest ih =>
+    intro hv i
+    cases i with
+    | zero =>
+      cases k with
+      | dflt => constructor <;> (intros; simp at *)
+      | recv c0 =>
+        simp only [caseChansValid, validChan, Bool.and_eq_true, decide_eq_true_eq] at hv
+        constructor
+        · intro c v h; simp at h
+        · intro c h; have : c0 = c := by simpa using h
+          rw [← this]; exact hv.1
+      | send c0 v0 =>
+        simp only [caseChansValid, validChan, Bool.and_eq_true, decide_eq_true_eq] at hv
+        constructor
+        · intro c v h; have : c0 = c ∧ v0 = v := by simpa using h
+          rw [← this.1]; exact hv.1
+        · intro c h; simp at h
+    | succ i =>
+      have hr : caseChansValid s rest = true := by
+        cases k with
+        | dflt => simpa [caseChansValid] using hv
+        | recv c0 => simp only [caseChansValid, Bool.and_eq_true] at hv; exact hv.2
+        | send c0 v0 => simp only [caseChansValid, Bool.and_eq_true] at hv; exact hv.2
+      simpa using ih hr i
+
+theorem doSelect_cmp (s : State) (g : Nat) (cases : List Case) (pick : Nat) (h : GInv s) (hc : Cmp s)
+    (hcur : s.cur = some g) (hv : caseChansValid s cases = true) : Cmp (doSelect s g cases pick).1 := by
+  have hvalid := caseChansValid_get s cases hv
+  unfold doSelect
+  generalize scan s cases 0 = r
+  obtain ⟨ready, dsel, thr⟩ := r
+  simp only
+  split
+  · exact hc
+  · split
+    · next i _ =>
+      split
+      · exact hc
+      · next c hcase =>
+        have := doRecv_cmp s g c h hc hcur ((hvalid i).2 c hcase)
+        split
+        · next s1 v ok heq => rw [heq] at this; exact this
+        · exact this
+      · next c v hcase =>
+        have := doSend_cmp s g c v h hc hcur ((hvalid i).1 c v hcase)
+        split
+        · next s1 heq => rw [heq] at this; exact this
+        · exact this
+    · have fr := registerCases_frame g cases 0 s.chans
+      apply cmp_block h hc g hcur (.select cases) _ fr (registerCases_keep g cases 0 s.chans)
+      intro i
+      have hp := registerCases_present g cases 0 s.chans i
+      refine ⟨fun c v hcase => ?_, fun c hcase => ?_⟩
+      · have hlt := (hvalid i).1 c v hcase
+        refine ⟨by show c < (registerCases g cases 0 s.chans).length; rw [fr.1]; exact hlt, fun hn => ?_⟩
+        have hn' : (s.chans.getD c Chan.nil).isNil = false := by rw [← fr.2 c]; exact hn
+        obtain ⟨e, he, h1, h2⟩ := hp.1 c v hcase hlt hn'
+        exact ⟨e, he, h1, by simpa using h2⟩
+      · have hlt := (hvalid i).2 c hcase
+        refine ⟨by show c < (registerCases g cases 0 s.chans).length; rw [fr.1]; exact hlt, fun hn => ?_⟩
+        have hn' : (s.chans.getD c Chan.nil).isNil = false := by rw [← fr.2 c]; exact hn
+        obtain ⟨e, he, h1, h2⟩ := hp.2 c hcase hlt hn'
+        exact ⟨e, he, h1, by simpa using h2⟩
+
+/-! ### every event -/
+
+theorem cmp_goNew {s : State} (hc : Cmp s) : Cmp (goNew s) := by
+  apply cmp_of (s' := goNew s) hc (fun k hk => ⟨hk, rfl⟩)
+  intro g hl ha he
+  have hl' : g < s.gs.length + 1 := by simpa [goNew] using hl
+  by_cases hg : g < s.gs.length
+  · have hsame : getG (goNew s) g = getG s g := getD_append_left _ _ _ hg
+    rw [hsame] at ha he
+    exact Or.inl ⟨hg, ha, he, by rw [hsame], fun k snd e hm _ => hm⟩
+  · have : g = s.gs.length := by omega
+    subst this
+    have : getG (goNew s) s.gs.length = dfltGor := by simp [getG_def, goNew, List.getD_eq_getElem?_getD]
+    rw [this] at ha; cases ha
+
+theorem cmp_makechan {s : State} (hc : Cmp s) (cap : Nat) : Cmp { s with chans := s.chans ++ [Chan.make cap] } := by
+  apply cmp_same_gs (s' := { s with chans := s.chans ++ [Chan.make cap] }) hc rfl
+  · intro k hk
+    refine ⟨by simp; omega, ?_⟩
+    simp [getC_def, List.getD_eq_getElem?_getD, List.getElem?_append_left hk]
+  · intro k snd e he
+    show e ∈ entsC (s.chans ++ [Chan.make cap]) k snd
+    rw [entsC_append]; exact he
+
+theorem cmp_runHead {s : State} (h : GInv s) (hc : Cmp s) (g : Nat) (rest : List Nat) (hs : s.scheduled = g :: rest) :
+    Cmp (runHead s g rest).1 := by
+  have hg := h.sched g (by rw [hs]; simp)
+  apply cmp_set (s' := (runHead s g rest).1) hc g { getG s g with wake := .none, blocked := none } rfl (fun k hk => ⟨hk, rfl⟩) (Or.inl hg.2.1)
+  intro k snd e he _; exact he
+
+theorem cmp_endLoop {s : State} (hc : Cmp s) : Cmp (endLoop s) :=
+  cmp_same_gs (s' := endLoop s) hc rfl (fun k hk => ⟨hk, rfl⟩) (fun _ _ _ he => he)
+
+/-- neither the goroutine table nor the channels change -/
+theorem cmp_nonmem {s : State} (hc : Cmp s) (s' : State) (hg : s'.gs = s.gs) (hch : s'.chans = s.chans) : Cmp s' :=
+  cmp_same_gs hc hg (fun k hk => ⟨by rw [hch]; exact hk, by rw [getC_def, getC_def, hch]⟩)
+    (fun k snd e he => by show e ∈ entsC s'.chans k snd; rw [hch]; exact he)
+
+theorem cmp_timers_awake {s : State} (hc : Cmp s) (ts : List (Nat × TimerKind)) (a : Int) :
+    Cmp { s with timers := ts, awake := a } :=
+  cmp_same_gs (s' := { s with timers := ts, awake := a }) hc rfl (fun k hk => ⟨hk, rfl⟩) (fun _ _ _ he => he)
+
+theorem cmp_enterLoop {s : State} (h : GInv s) (hc : Cmp s) : Cmp (enterLoop s).1 := by
+  unfold enterLoop; simp only
+  have h1 := h.timers (s.timers ++ [(s.nextTimer, TimerKind.runSched)]) (s.nextTimer + 1) s.nextTimer true
+    (userTimers_append_runSched _ _)
+  have hc1 := cmp_nonmem hc { s with timers := s.timers ++ [(s.nextTimer, TimerKind.runSched)], nextTimer := s.nextTimer + 1, loopTimer := s.nextTimer, inLoop := true } rfl rfl
+  split
+  · exact cmp_endLoop hc1
+  · next g rest hs => exact cmp_runHead h1 hc1 g rest hs
+
+theorem cmp_exit {s : State} (h : GInv s) (hc : Cmp s) (g : Nat) (hcur : s.cur = some g) :
+    Cmp (endSlice (setG s g { getG s g with exit := true }) g) := by
+  obtain ⟨hlt, _, _, _⟩ := h.cur g hcur
+  have hx : getG (setG s g { getG s g with exit := true }) g = { getG s g with exit := true } := by
+    simp [getG_def, setG, hlt]
+  have hgs : (endSlice (setG s g { getG s g with exit := true }) g).gs
+      = s.gs.set g { getG s g with exit := true, asleep := true } := by
+    rw [endSlice_exit _ g (by simpa [setG] using hlt) (by rw [hx]), loopTail_gs, hx]
+    simp [setG, List.set_set]
+  apply cmp_set hc g _ hgs
+  · intro k hk; exact ⟨by simpa using hk, by simp [getC_def]⟩
+  · right; left; rfl
+  · intro k snd e he _
+    show e ∈ entsC (endSlice (setG s g { getG s g with exit := true }) g).chans k snd
+    simpa using he
+
+theorem step_cmp (s : State) (ev : Event) (h : GInv s) (hc : Cmp s) : Cmp (step s ev).1 := by
+  unfold step
+  split
+  · next g hcur =>
+    split
+    · exact cmp_makechan hc _
+    · exact cmp_goNew hc
+    · split
+      · next hv => exact doSend_cmp _ _ _ _ h hc hcur (by simpa [validChan] using hv)
+      · exact hc
+    · split
+      · next hv => exact doRecv_cmp _ _ _ h hc hcur (by simpa [validChan] using hv)
+      · exact hc
+    · split
+      · exact doClose_cmp _ _ h hc
+      · exact hc
+    · split
+      · next hv => exact doSelect_cmp _ _ _ _ h hc hcur hv
+      · exact hc
+    · split
+      · exact cmp_same_gs hc rfl (chFrame_refl s) (fun _ _ _ he => he)
+      · exact hc
+    · exact cmp_exit h hc g hcur
+    · exact cmp_same_gs hc rfl (chFrame_refl s) (fun _ _ _ he => he)
+    · exact hc
+  · next hcur =>
+    split
+    · split
+      · split
+        · next g rest hs => exact cmp_runHead h hc g rest hs
+        · exact hc
+      · exact cmp_same_gs hc rfl (chFrame_refl s) (fun _ _ _ he => he)
+      · exact hc
+    · split
+      · exact cmp_makechan hc _
+      · exact cmp_enterLoop h.goNew (cmp_goNew hc)
+      · split
+        · exact hc
+        · next hf =>
+          apply cmp_enterLoop
+          · exact h.timers _ s.nextTimer s.loopTimer s.inLoop (userTimers_erase_runSched _ _)
+          · exact cmp_same_gs hc rfl (chFrame_refl s) (fun _ _ _ he => he)
+        · next c hf =>
+          simp only
+          split
+          · exact hc
+          · have h1 := h.fireUser _ c (findTimer_mem hf)
+            have hc1 := fun ts a => cmp_timers_awake hc ts a
+            split
+            · next s2 heq =>
+              have e := congrArg Prod.fst heq; simp only at e
+              have h2 : GInv s2 := by rw [← e]; exact doClose_ginv _ _ h1
+              have hc2 : Cmp s2 := by rw [← e]; exact doClose_cmp _ _ h1 (hc1 _ _)
+              split
+              · exact cmp_enterLoop h2 hc2
+              · exact hc2
+            · exact doClose_cmp _ _ h1 (hc1 _ _)
+      · exact hc
+
+theorem init_cmp : Cmp GV.Sched.init := by
+  intro g hl; simp [GV.Sched.init] at hl
+
+theorem runAll_both : ∀ (evs : List Event) (s : State), GInv s → Cmp s → GInv (runAll s evs) ∧ Cmp (runAll s evs) := by
+  intro evs; induction evs with
+  | nil => intro s h hc; exact ⟨h, hc⟩
+  | cons e es ih => intro s h hc; exact ih _ (step_ginv s e h) (step_cmp s e h hc)
+
 end GV.Proofs.SchedLive
